@@ -34,7 +34,21 @@ def gen_config(rng):
     for _ in range(rng.randint(1, 3)):
         a, b = rng.choice(vars_), rng.choice(vars_)
         pairs.add(tuple(sorted((a, b))))
-    return {"vars": vars_, "maps": maps, "pairs": sorted(pairs), "shift2": rng.choice([1, -1])}
+    # declaration mode: explicit pair lists, or a list of variable NAMES per operator (automatic cross derivatives:
+    # every operator adds its cross terms with the variables carried so far, whoever declared them)
+    mode = "names" if rng.random() < 0.35 else "pairs"
+    if rng.random() < 0.2:
+        # mixed orders, automatic mode: the FIRST operator carries u and declares order2 by name; the later operators carry
+        # v with order1 only -- they must still add their cross terms dO/dv . d(state)/du to the (u,v) entry
+        mode, vars_ = "mixed", ["u", "v"]
+        p0 = rng.choice(ops[0][1])
+        maps = [{"u": {p0: float(rng.choice([1, 2, -1]))}}]
+        for kind, params, _ in ops[1:]:
+            maps.append({"v": {rng.choice(params): float(rng.choice([1, -1, 2]))}} if rng.random() < 0.75 else {})
+        if not any(maps[1:]):
+            maps[1] = {"v": {"T2": 1.0}}
+        pairs = {("u", "v"), ("u", "u")}
+    return {"vars": vars_, "maps": maps, "pairs": sorted(pairs), "shift2": rng.choice([1, -1]), "mode": mode}
 
 
 def build_seq(cfg, x, diff):
@@ -56,7 +70,12 @@ def build_seq(cfg, x, diff):
             # coefficients relative to the variable's own unit: d param / d var = c * STEP[param]
             kw["order1"] = {v: {p: c * STEP[p] for p, c in cs.items()} for v, cs in m.items()}
             prs = [pr for pr in cfg["pairs"] if pr[0] in m or pr[1] in m]
-            if prs:
+            if cfg.get("mode") == "names":
+                kw["order2"] = sorted(m)
+            elif cfg.get("mode") == "mixed":
+                if "u" in m:
+                    kw["order2"] = ["u"]
+            elif prs:
                 kw["order2"] = [tuple(pr) for pr in prs]
         cls = epg.T if kind == "T" else epg.E
         seq.append(cls(*vals, **kw))
@@ -158,12 +177,12 @@ def run(ctx):
         if v is False and nb < 3:
             nb += 1
             ctx.report("second-order bookkeeping model (Model/Diff.v apply_order2) and diff.py disagree", {"dcase": repr(p), "theorem_or_correspondence": "C03 correspondence Model/Diff.v vs epgpy/diff.py"}, found_input=False)
-    oracle(ctx, 12 if quick else 400)
+    oracle(ctx, 30 if quick else 400)
     declared_forms(ctx)
     ctx.cov["trusted_base"] += [
         "translator (Gen/*.v) validated by the Interval tie at %d function-points" % nok,
         "literal model of _apply_order2 (Model/Diff.v) tied to diff.py by exact correspondence of sm.order2 after every operator",
-        "exactness of the second-order bookkeeping over programs is NOT a theorem yet: it is covered by the correspondence and by the finite-difference oracle (testing)"]
+        "second-order exactness over programs: theorems order2_run / hessian_exact on the literal model; finite-difference oracle on real operators as supporting testing"]
     if not proved:
         ctx.report("proof obligations of C03 no longer check: %s" % ctx.failed_obligations, {"theorem_or_correspondence": ctx.failed_obligations}, found_input=bool(ctx.violations))
 
